@@ -100,6 +100,7 @@ class TU:
     def __init__(self, path):
         self.path = path
         self.cur_file = None
+        self.cur_line = 0        # clang prints file/line only when they change: tracked in document order
         self.statics = {}        # decl id -> object record
         self.refs = []           # (decl id, enclosing fn, [ancestors], node)
         self.edges = {}          # function -> set of functions it calls or whose address it takes
@@ -111,6 +112,8 @@ class TU:
         for k, v in l.items():
             if k == "file":
                 self.cur_file = v
+            elif k == "line":
+                self.cur_line = v
             elif k in ("spellingLoc", "expansionLoc", "begin", "end"):
                 self.note(v)
 
@@ -120,7 +123,10 @@ class TU:
             self.note(n["loc"])
         here = self.cur_file
         if "range" in n:
-            self.note(n["range"])
+            self.note(n["range"].get("begin"))
+            n["_lb"] = self.cur_line
+            self.note(n["range"].get("end"))
+            n["_le"] = self.cur_line
         if k == "VarDecl":
             sc = n.get("storageClass")
             if (fn is None) or sc == "static":
@@ -133,7 +139,7 @@ class TU:
         elif k == "DeclRefExpr":
             rd = n.get("referencedDecl") or {}
             if rd.get("kind") == "VarDecl":
-                self.refs.append((rd["id"], fn, list(stack), n))
+                self.refs.append((rd["id"], fn, list(stack), n, rel(topfile)))
             elif rd.get("kind") == "FunctionDecl" and fn is not None:
                 self.edges.setdefault(fn, set()).add(rd.get("name", "?"))
                 if rd.get("name") in LIBC_UNSAFE and rel(topfile) is not None:
@@ -329,17 +335,34 @@ def analyse_tu(tu):
         o = objs.setdefault((f, name), {"file": f, "object": name, "tu": tu, "type": s["type"],
                                         "scope": "file" if s["fn"] is None else "function-local",
                                         "storage": s["storage"], "ids": [], "writes": [], "reads": {},
-                                        "noaccess": 0})
+                                        "noaccess": 0, "site_lines": []})
         o["ids"].append(did)
     byid = {did: o for o in objs.values() for did in o["ids"]}
     nrefs = 0
-    for did, fn, stack, node in t.refs:
+    STMT_PARENTS = ("CompoundStmt", "IfStmt", "ForStmt", "WhileStmt", "DoStmt", "SwitchStmt", "CaseStmt",
+                    "DefaultStmt", "LabelStmt", "FunctionDecl")
+    for did, fn, stack, node, sfile in t.refs:
         o = byid.get(did)
         if o is None:
             continue
         nrefs += 1
         acc, kind = t.classify(node, stack)
         fname = fn if fn is not None else "<file-scope>"
+        # line range of the smallest enclosing full statement / controlling expression (what a debugger or
+        # ThreadSanitizer reports for code evaluating this reference); lines are NOT part of the Lean inventory
+        st = node
+        for anc in reversed(stack):
+            if anc.get("kind") in STMT_PARENTS:
+                break
+            st = anc
+        # inside a loop the loaded value is carried by locals (loop variable, element copies) through the rest
+        # of the iteration: the site then is the innermost enclosing loop statement
+        loop = next((anc for anc in reversed(stack) if anc.get("kind") in ("ForStmt", "WhileStmt", "DoStmt")), None)
+        if loop is not None:
+            st = loop
+        sl = [fname, sfile, st.get("_lb", 0), st.get("_le", 0), acc]
+        if acc != "none" and sl not in o["site_lines"]:
+            o["site_lines"].append(sl)
         if acc == "write":
             if not any(w["fn"] == fname and w["kind"] == kind for w in o["writes"]):
                 o["writes"].append({"fn": fname, "kind": kind, "node": q(fname)})
@@ -350,7 +373,7 @@ def analyse_tu(tu):
     for name, fn, f in t.libc_calls:
         o = objs.setdefault(("<libc>", name), {"file": "<libc>", "object": name, "tu": tu, "type": "process-wide state of " + name,
                                                "scope": "libc", "storage": "libc", "ids": [], "writes": [], "reads": {},
-                                               "noaccess": 0})
+                                               "noaccess": 0, "site_lines": []})
         if not any(w["fn"] == fn for w in o["writes"]):
             o["writes"].append({"fn": fn, "kind": "libc-mt-unsafe-call", "node": q(fn)})
     for o in objs.values():
